@@ -68,7 +68,9 @@ def fresh_plugin(kind: str, name: str, version):
     """A new plugin class for plugin `name` in `version` (plain class or MetadataSchema)."""
     info = type("Plugin", (), {"name": name, "version": tuple(version)})
     base = object if kind == "own" else _MetadataSchema
-    cname = "C16_" + "".join(c if c.isalnum() else "_" for c in name) + "_v" + "_".join(map(str, version))
+    # injective spelling of the plugin name as an identifier ("a-b" and "a_b" must not share an attribute)
+    ident = "".join(c if c.isalnum() else {".": "_d_", "-": "_h_", "_": "_u_"}.get(c, f"_x{ord(c):x}_") for c in name)
+    cname = f"C16_{kind}_{ident}_v" + "_".join(map(str, version))
     if kind == "own":
         return type(cname, (base,), {"Plugin": info, "__module__": MODULE})
     return type(base)(cname, (base,), {"Plugin": info, "__module__": MODULE, "__annotations__": {}})
